@@ -21,12 +21,13 @@ ACT2STEP = {
     "THDeliver": ("tohost", "deliver"), "THDrop": ("tohost", "drop"), "THCorrupt": ("tohost", "corrupt"),
     "THDup": ("tohost", "dup"), "TNDeliver": ("toncp", "deliver"), "TNDrop": ("toncp", "drop"),
     "TNCorrupt": ("toncp", "corrupt"), "TNDup": ("toncp", "dup"), "HCancelAny": ("hcancel", 1),
+    "THHold": ("tohost", "hold"), "TNHold": ("toncp", "hold"), "ReleaseH": ("hrelease",), "ReleaseN": ("nrelease",),
 }
 
 
-def mc_consts(maxatt, win, hp, np_, faults, cancel, starts="{0, 62}"):
+def mc_consts(maxatt, win, hp, np_, faults, cancel, starts="{0, 62}", holds=0, span=2):
     return {"MaxAtt": maxatt, "Win": str(win), "HPayloads": str(hp), "NPayloads": str(np_), "MaxFaults": str(faults),
-            "Cap": "3", "StartPairs": starts, "MaxCancel": str(cancel)}
+            "Cap": "3", "StartPairs": starts, "MaxCancel": str(cancel), "MaxHolds": str(holds), "HoldSpan": str(span)}
 
 
 def sig(meta, v, tr):
@@ -45,11 +46,13 @@ def random_schedule(rng, n):
         elif r < 0.24:
             sched.append(("nsubmit",))
         elif r < 0.58:
-            f = rng.choices(("deliver", "drop", "corrupt", "dup"), (70, 10, 10, 10))[0]
+            f = rng.choices(("deliver", "drop", "corrupt", "dup", "hold"), (66, 10, 10, 8, 6))[0]
             sched.append(("tohost", f, rng.random() < 0.1))
-        elif r < 0.90:
-            f = rng.choices(("deliver", "drop", "corrupt", "dup"), (70, 10, 10, 10))[0]
+        elif r < 0.88:
+            f = rng.choices(("deliver", "drop", "corrupt", "dup", "hold"), (66, 10, 10, 8, 6))[0]
             sched.append(("toncp", f))
+        elif r < 0.90:
+            sched.append((rng.choice(("hrelease", "nrelease")),))
         elif r < 0.94:
             sched.append(("htick",))
         elif r < 0.98:
@@ -65,12 +68,15 @@ def run(ctx: Ctx):
     props = ("CancelIsInvisible",)
     req = ("HSubmit", "HTimer", "HResume", "NSubmit", "NTimer", "ToHost", "ToNcp")
     if ctx.quick:
-        runs = [(3, 1, 2, 2, 0), (2, 2, 1, 1, 1)]
+        runs = [(3, 1, 2, 2, 0, 0), (2, 2, 1, 1, 1, 0), (1, 2, 0, 3, 0, 1, "{0}"), (1, 2, 1, 2, 0, 1, "{0}")]
     else:
-        runs = [(1, 2, 2, 2, 1), (2, 2, 2, 2, 1), (3, 2, 2, 2, 1), (3, 1, 3, 2, 0), (2, 2, 1, 3, 0)]
-    for win, hp, np_, fl, cn in runs:
-        ctx.model_check("AshLink", f"MC_AshLink_W{win}_{hp}_{np_}_F{fl}", constants=mc_consts(maxatt, win, hp, np_, fl, cn),
-                        invariants=MCINV, properties=props, constraints=("LineBound",), required_actions=req + (("HNext", "HCancel") if hp > 1 and cn else ()),
+        runs = [(1, 2, 2, 2, 1, 0), (2, 2, 2, 2, 1, 0), (3, 2, 2, 2, 1, 0), (3, 1, 3, 2, 0, 0), (2, 2, 1, 3, 0, 0), (1, 3, 1, 2, 0, 1), (2, 2, 2, 2, 0, 1)]
+    # (the last element: stalled duplicate copies explored - a copy of a delivered frame arriving up to HoldSpan frames later)
+    for run_ in runs:
+        win, hp, np_, fl, cn, holds = run_[:6]
+        ctx.model_check("AshLink", f"MC_AshLink_W{win}_{hp}_{np_}_F{fl}_H{holds}",
+                        constants=mc_consts(maxatt, win, hp, np_, fl, cn, *(run_[6:7] or ("{0, 62}",)), holds=holds),
+                        invariants=MCINV, properties=props, constraints=("LineBound",), required_actions=(tuple(a for a in req if np_ or a not in ("NSubmit", "NTimer"))) + (("HNext", "HCancel") if hp > 1 and cn else ()) + (("ReleaseH", "ReleaseN") if holds else ()),
                         heap="20g", timeout=3000)
     jobs, metas = [], []
     # (1) spec -> code: TLC-simulated behaviours, environment actions replayed on the real host
@@ -78,7 +84,7 @@ def run(ctx: Ctx):
     for win in (1, 2, 3):
         simdir = ctx.workdir / f"sim{win}"
         simdir.mkdir()
-        ctx.model_check("AshLink", f"SIM_AshLink_W{win}", constants=mc_consts(maxatt, win, 3, 3, 3, 1, "{0}"),
+        ctx.model_check("AshLink", f"SIM_AshLink_W{win}", constants=mc_consts(maxatt, win, 3, 3, 3, 1, "{0}", holds=1),
                         invariants=MCINV, constraints=("LineBound",), simulate=f"file={simdir}/b,num={nsim}", depth=45,
                         workers=1, coverage=False)
         for f in sorted(simdir.iterdir()):
@@ -92,7 +98,9 @@ def run(ctx: Ctx):
     D = 4 if ctx.quick else 6
     for win in (1, 2, 3):
         for nh, nn in ((2, 2), (1, 3)) if not ctx.quick else ((2, 2),):
-            for fa in itertools.product(FAULTS, repeat=D):
+            for fa in itertools.product(FAULTS + ("hold",), repeat=D):
+                if fa.count("hold") > 1 and ctx.quick:
+                    continue
                 cancel = (3, 1) if (hash(fa) % 5 == 0) else None
                 jobs.append(("policy", (win, nh, nn, list(fa), cancel)))
                 metas.append({"src": "policy", "win": win, "nh": nh, "nn": nn, "faults": list(fa), "cancel": cancel})
